@@ -1,6 +1,6 @@
 /-
 Driver for C13.
-  c13 run <k> <target> <bchmax> <workers> => <token>…
+  c13 run <k> <target> <bchmax> <workers> <iteration offset> => <token>…
      tokens, in the order the implementation emitted them on the reporter channel (interval 0):
        R:<ebn0 index>:<num_frames>:<false_decodes>:<total_it>:<ldpc be>:<ldpc fe>:<ldpc ci>:<bch be|->:<bch fe|->:<bch ci|->:<ber>:<fer>:<avg it>:<avg it correct>
        FIN      (Report::Finished)
@@ -55,7 +55,7 @@ def sameCounters (r : Rep) (c : Cur) : Bool :=
   r.bch == c.bch.map (fun b => (b.bitErrors, b.frameErrors, b.correctIterations))
 
 /-- replay one Eb/N0 point: every report must be the model state after consuming the frames identified so far -/
-def replayPoint (k target bchMax : Nat) (reps : List Rep) (final : Rep) (seen : List Nat) : Option String × List Nat :=
+def replayPoint (k target bchMax : Nat) (reps : List Rep) (final : Rep) (seen : List Nat) (offset : Nat := 0) : Option String × List Nat :=
   let rec go (c : Cur) (seen : List Nat) : List Rep → Option String × Cur × List Nat
     | [] => (none, c, seen)
     | r :: rest =>
@@ -64,11 +64,14 @@ def replayPoint (k target bchMax : Nat) (reps : List Rep) (final : Rep) (seen : 
         (if sameCounters r c && (r.nf == 0 || r.ratios == ratios k c) then go c seen rest else (some "repeated-report-differs", c, seen))
       else if r.nf ≠ c.numFrames + 1 then (some "report-skips-frames (cannot reconstruct the consumed sequence)", c, seen)
       else
-        let id := r.ti - c.totalIterations
-        if seen.contains id then (some s!"frame-{id}-consumed-twice", c, seen)
+        -- the scripted decoder reports `id + offset` iterations for frame `id`
+        let it := r.ti - c.totalIterations
+        let id := it - offset
+        if it < offset then (some s!"iteration-count-{it}-below-the-scripted-offset-{offset} (a narrow integer on the way to the statistics?)", c, seen)
+        else if seen.contains id then (some s!"frame-{id}-consumed-twice", c, seen)
         else if c.errors ≥ target then (some "frame-consumed-after-the-error-target-was-reached", c, seen)
         else
-          let c' := c.step bchMax (scriptFrame k id)
+          let c' := c.step bchMax { scriptFrame k id with iterations := id + offset }
           if !sameCounters r c' then (some s!"counters-are-not-those-of-whole-frames (frame id {id})", c', seen)
           else if r.ratios ≠ ratios k c' then (some "ratio-is-not-the-stated-quotient", c', seen)
           else go c' (id :: seen) rest
@@ -119,9 +122,9 @@ def handle (inp out : List String) : String :=
       | some reps, some [fin] => verdict out out (replaySeq k target bchMax reps fin)
       | _, _ => "BADLINE c13 seq tokens"
     | _, _, _ => "BADLINE c13 seq"
-  | ["run", k, target, bchMax, workers] =>
-    match k.toNat?, target.toNat?, bchMax.toNat? with
-    | some k, some target, some bchMax =>
+  | ["run", k, target, bchMax, workers, offset] =>
+    match k.toNat?, target.toNat?, bchMax.toNat?, offset.toNat? with
+    | some k, some target, some bchMax, some offset =>
       let builtTok := out.headD ""
       let out0 := out
       let out := out.drop 1
@@ -140,7 +143,7 @@ def handle (inp out : List String) : String :=
             match fins[p]? with
             | none => some "missing-final"
             | some fin =>
-              let (e, seen') := replayPoint k target bchMax (reps.filter (·.point == p)) fin seen
+              let (e, seen') := replayPoint k target bchMax (reps.filter (·.point == p)) fin seen offset
               match e with
               | some why => some s!"point{p}:{why}"
               | none => points (p + 1) fuel seen'
@@ -151,7 +154,7 @@ def handle (inp out : List String) : String :=
           else points 0 (npoints + 1) []
         verdict out0 out0 prop
       | _, _ => "BADLINE c13 tokens"
-    | _, _, _ => "BADLINE c13 run"
+    | _, _, _, _ => "BADLINE c13 run"
   | ["sparse", _k, target, npoints, _workers] =>
     -- reporter with a long interval, every frame a frame error (one bit error each): the reports are exactly the returned statistics,
     -- one per Eb/N0 point, then Finished; every point has exactly `target` frames, frame errors and bit errors
